@@ -35,7 +35,8 @@ CHECKS = {
             "Generated class source (OvldBase / OvldMC / plain mixins / create_subclass, extend_super, recurse and "
             "call_next bodies) is executed statement by statement; after each statement every class so far is probed "
             "and compared with a class-body model, which also decides that bases and siblings did not change and "
-            "that self is the instance.",
+            "that self is the instance; half of the hierarchies span two module namespaces and end with one more "
+            "definition registered on a leaf class, after which every class is probed again.",
             "Builtin parameter types in single-inheritance chains; multi-base inheritance of a name without own "
             "definitions is unspecified; F20/F21 recorded as known findings with defect-model classifiers.",
             "DESIGN.md §4 C17"),
@@ -126,7 +127,8 @@ CHECKS = {
             "runtime monitors: predicate-side guard log, entry monitor on dependent parameters, reference model with value-level applicability ('false => absent'), strategy read-back from generated source",
             "Harness-owned conditions log every value they are evaluated on (guard clause); every body entry re-checks bound and "
             "condition; the outcome incl. the error kind is compared with the reference model in which a false dependent "
-            "method is absent; the dispatcher strategy exercised (if-chain / table / counting) is read back for the evidence.",
+            "method is absent; parametrised @dependent_check patterns with Any wildcards are ordered by the documented "
+            "position-wise rule; the dispatcher strategy exercised (if-chain / table / counting) is read back for the evidence.",
             "Different-bound dependent pairs and cross-type literal equality are unspecified; composite types get clauses (a), "
             "(b) and crash-freedom only; F1-family disagreements need the frozen transcription to predict the observation.",
             "DESIGN.md §4 C10"),
@@ -158,7 +160,7 @@ CHECKS = {
             "runtime monitor: delegation trees returned by generated bodies vs iterated-removal reference model",
             "Every body reports itself and what its call_next / f.next returned, so one call yields the whole chain; the "
             "chain, its terminal error kind and the fresh-call rule are compared with the reference model on plain, "
-            "variant, mixin, method and value-dependent programs; structural laws (no repeat, non-increasing rank) are "
+            "variant, mixin, method, value-dependent and type[K] (classes as arguments) programs; structural laws (no repeat, non-increasing rank) are "
             "checked model-free.",
             "Delegation from inside a tied rank is unspecified; F1-family and F22 disagreements are attributed only when "
             "the frozen transcription predicts the exact observed chain.",
